@@ -3,6 +3,7 @@ package rules
 import (
 	"go/constant"
 	"go/token"
+	"go/types"
 	"sort"
 	"strings"
 
@@ -272,8 +273,58 @@ func runC05(c *eng.Ctx) {
 			g, w := eng.GuardedBy(fn, r.(ssa.Instruction), missing)
 			c.Check(g && len(missing) > 0, "only an index without a log is removed at open", c.Pos(r.(ssa.Instruction)), "os.Remove behind os.IsNotExist(stat(log))", "open() can remove a file whose log exists (path "+w.String()+")")
 		}
+		// every *.log file becomes a segment that is re-opened (never created as new), at the base offset in its name
+		segF := p.Field(clPkg, "commitLog", "segments")
+		isLog := eng.BoolEdges(fn, func(v ssa.Value) bool {
+			call := eng.AsCall(v)
+			return call != nil && eng.CalleeRef(&call.Call) == "strings.HasSuffix" && (eng.Global(cl+"logFileSuffix")(call.Call.Args[1]) || eng.StrConst(".log")(call.Call.Args[1]))
+		}, true)
+		var reopen, fresh []ssa.CallInstruction
+		for _, ns := range eng.CallsIn(fn, cl+"newSegment") {
+			if boolConst(ns.Common().Args[3], false) {
+				reopen = append(reopen, ns)
+			} else {
+				fresh = append(fresh, ns)
+			}
+		}
+		okRe := len(reopen) == 1 && len(isLog) > 0
+		if okRe {
+			g, _ := eng.GuardedBy(fn, reopen[0].(ssa.Instruction), isLog)
+			base := eng.Call(0, "strconv.Atoi", "strconv.ParseInt")
+			okRe = g && base(reopen[0].Common().Args[1]) && appendedTo(fn, segF, reopen[0].Value())
+		}
+		pos := p.Pos(fn.Pos())
+		if len(reopen) == 1 {
+			pos = c.Pos(reopen[0].(ssa.Instruction))
+		}
+		c.Check(okRe, "each log file is recovered as an existing segment at the offset in its name", pos, "newSegment(path, Atoi(name without suffix), …, isNew=false, \"\") appended to l.segments, for *.log files only", "open() does not re-open every *.log file as an existing segment at the base offset its name carries: recovered offsets shift, or a recovered file is refused / truncated as if new")
+		// a first segment is created only for a log without any segment
+		none := eng.CmpEdges(fn, eng.Len(eng.Load(segF, nil)), eng.IntConst(0), eng.EQ)
+		okFresh := len(fresh) == 1 && len(none) > 0 && exactRel(fn, eng.Len(eng.Load(segF, nil)), eng.IntConst(0), eng.EQ)
+		if okFresh {
+			g, _ := eng.GuardedBy(fn, fresh[0].(ssa.Instruction), none)
+			okFresh = g && eng.IntConst(0)(fresh[0].Common().Args[1]) && boolConst(fresh[0].Common().Args[3], true) && appendedTo(fn, segF, fresh[0].Value())
+		}
+		c.Check(okFresh, "a first segment is created only when nothing was recovered", pos, "newSegment(path, 0, …, isNew=true) exactly on len(l.segments) == 0", "open() creates a fresh base segment although segments were recovered (or does not create one for an empty directory)")
+		// appends continue in the newest recovered segment
+		okAct := false
+		for _, sp := range eng.CallsIn(fn, "sync/atomic.StorePointer") {
+			if ia := indexOfLoad(eng.Strip(sp.Common().Args[1])); ia != nil && eng.Load(segF, nil)(ia.X) && eng.Bin(token.SUB, eng.Len(eng.Load(segF, nil)), eng.IntConst(1))(ia.Index) {
+				okAct = true
+			}
+		}
+		c.Check(okAct, "the newest recovered segment becomes the active one", pos, "vActiveSegment = l.segments[len(l.segments)-1]", "after recovery the active segment is not the last (newest) one: appends go into the middle of the log")
+		// the recovered high watermark comes from the checkpoint file
+		hwF := p.Field(clPkg, "commitLog", "hw")
+		okHW := false
+		for _, st := range eng.FieldStores(fn, func(fa *ssa.FieldAddr) bool { return fieldIs(fa, hwF) }) {
+			if eng.Call(0, "strconv.ParseInt")(st.Val) {
+				okHW = true
+			}
+		}
+		c.Check(okHW, "the high watermark is recovered from its checkpoint", pos, "l.hw = ParseInt(contents of the checkpoint file)", "open() does not restore l.hw from the replication-offset checkpoint: after a restart committed data is invisible until the watermark is re-learned, or uncommitted data is visible")
 	}
-	c.Floor(6)
+	c.Floor(10)
 
 	// ---- R05.6 lock regions
 	c.Rule("R05.6", "K4")
@@ -295,4 +346,27 @@ func runC05(c *eng.Ctx) {
 		c.Check(bad == "", "Truncate holds the log lock throughout", p.Pos(fn.Pos()), "every segment / epoch-cache operation runs with l.mu write-held", "Truncate performs "+bad+" without the log's write lock: appends or cleans can interleave with a half-truncated log")
 	}
 	c.Floor(1)
+}
+
+// appendedTo: fn stores append(<field>, v) (possibly after conversion) into the field.
+func appendedTo(fn *ssa.Function, f *types.Var, v ssa.Value) bool {
+	ok := false
+	for _, st := range eng.FieldStores(fn, func(fa *ssa.FieldAddr) bool { return fieldIs(fa, f) }) {
+		ac := eng.AsCall(st.Val)
+		if ac == nil {
+			continue
+		}
+		if b, isB := ac.Call.Value.(*ssa.Builtin); !isB || b.Name() != "append" || !eng.Load(f, nil)(ac.Call.Args[0]) {
+			continue
+		}
+		for _, e := range variadicElems(ac.Call.Args[1]) {
+			if e == v || eng.Strip(e) == eng.Strip(v) {
+				ok = true
+			}
+			if ex, isE := eng.Strip(e).(*ssa.Extract); isE && ex.Index == 0 && ex.Tuple == v {
+				ok = true
+			}
+		}
+	}
+	return ok
 }
